@@ -265,3 +265,90 @@ def shapes(tier):
         spec["mods"] = copy.deepcopy(mods)
         out.append(("nofunc/%s" % mods_name(mods), spec))
     return out
+
+
+def cfi_layout(kind="one"):
+    """CFI procedures over the text layout.
+    one:  a single procedure over b0..b2 with state changes inside b1
+    two:  procedure P over b0+b1 (ends at the end of b1), procedure Q over b2
+    data: procedure over b0, data block b1, lone procedure over b2"""
+    if kind == "split":
+        spec = mixed_layout()
+        spec["annots"] = []
+        spec["cfi"] = [
+            {"blk": "b0", "at": 0, "dirs": [(".cfi_startproc", []), (".cfi_def_cfa_offset", [16])]},
+            {"blk": "b2", "at": 1, "dirs": [(".cfi_remember_state", []), (".cfi_def_cfa_offset", [24])]},
+            {"blk": "b2", "at": 2, "dirs": [(".cfi_restore_state", []), (".cfi_endproc", [])]},
+        ]
+        return spec
+    if kind == "data":
+        spec = mixed_layout()
+        spec["annots"] = []
+        spec["cfi"] = [
+            {"blk": "b0", "at": 0, "dirs": [(".cfi_startproc", []), (".cfi_def_cfa_offset", [16])]},
+            {"blk": "b0", "at": 2, "dirs": [(".cfi_endproc", [])]},
+            {"blk": "b2", "at": 0, "dirs": [(".cfi_startproc", [])]},
+            {"blk": "b2", "at": 1, "dirs": [(".cfi_remember_state", []), (".cfi_def_cfa_offset", [24])]},
+            {"blk": "b2", "at": 2, "dirs": [(".cfi_restore_state", []), (".cfi_endproc", [])]},
+        ]
+        return spec
+    spec = text_layout("jcc:s0", annots=False)
+    if kind == "one":
+        spec["cfi"] = [
+            {"blk": "b0", "at": 0, "dirs": [(".cfi_startproc", []), (".cfi_personality", [0], "ext1"), (".cfi_lsda", [0], "s2")]},
+            {"blk": "b0", "at": 1, "dirs": [(".cfi_def_cfa_offset", [16]), (".cfi_offset", [6, -16])]},
+            {"blk": "b1", "at": 0, "dirs": [(".cfi_def_cfa_register", [6])]},
+            {"blk": "b1", "at": 1, "dirs": [(".cfi_remember_state", []), (".cfi_def_cfa_offset", [32])]},
+            {"blk": "b1", "at": 2, "dirs": [(".cfi_restore_state", [])]},
+            {"blk": "b1", "at": 3, "dirs": [(".cfi_def_cfa_offset", [8])]},
+            {"blk": "b2", "at": 2, "dirs": [(".cfi_endproc", [])]},
+        ]
+    else:
+        spec["cfi"] = [
+            {"blk": "b0", "at": 0, "dirs": [(".cfi_startproc", [])]},
+            {"blk": "b0", "at": 2, "dirs": [(".cfi_def_cfa_offset", [16])]},
+            {"blk": "b1", "at": 2, "dirs": [(".cfi_def_cfa_offset", [8])]},
+            {"blk": "b1", "at": 3, "dirs": [(".cfi_def_cfa_offset", [24]), (".cfi_endproc", [])]},
+            {"blk": "b2", "at": 0, "dirs": [(".cfi_startproc", []), (".cfi_def_cfa_offset", [16])]},
+            {"blk": "b2", "at": 2, "dirs": [(".cfi_endproc", [])]},
+        ]
+    return spec
+
+
+CFI_PATCH = "cfi:.cfi_adjust_cfa_offset 8;mov ecx, 1;.cfi_adjust_cfa_offset -8"
+
+
+def cfi_shapes(tier):
+    out = []
+    text_mods = [[]]
+    for j in range(4):
+        text_mods.append([ins("b1", j, "mov")])
+        text_mods.append([ins("b1", j, "cfi:.cfi_undefined 3")])
+    text_mods += [[ins("b0", 0, "cfi:.cfi_undefined 3")], [ins("b0", 2, "label")], [ins("b2", 2, "cfi:.cfi_undefined 3")],
+                  [ins("b2", 0, "mov")], [ins("b2", 2, "mov")],
+                  [dele("b1", 0, 1)], [dele("b1", 1, 2)], [dele("b1", 2, 3)], [dele("b1", 0, 3)], [dele("b1", 0, 2)],
+                  [dele("b0", 0, 2)], [dele("b2", 0, 2)], [dele("b0", 0, 2), dele("b1", 0, 3)],
+                  [dele("b1", 0, 3), dele("b2", 0, 2)], [dele("b0", 0, 2, proxy=True)], [dele("b2", 0, 2, proxy=True)],
+                  [rep("b1", 1, 2, "mov")], [rep("b1", 0, 3, "cfi:.cfi_undefined 3")],
+                  [ins("b1", 1, "mov"), ins("b1", 3, "cfi:.cfi_undefined 3")],
+                  [ins("b1", 0, "mov"), ins("b2", 0, "cfi:.cfi_undefined 3")],
+                  [dele("b1", 0, 2), ins("b1", 3, "cfi:.cfi_undefined 3")],
+                  [dele("b0", 0, 2), dele("b1", 0, 3), dele("b2", 0, 2)]]
+    for kind in ("one", "two"):
+        for mods in text_mods:
+            spec = cfi_layout(kind)
+            spec["mods"] = copy.deepcopy(mods)
+            out.append(("cfi-%s/%s" % (kind, mods_name(mods)), spec))
+    data_mods = [[], [dele("b0", 0, 2)], [dele("b2", 0, 2)], [dele("b0", 0, 2, proxy=True)], [dele("b2", 0, 2, proxy=True)],
+                 [dele("b0", 0, 2, proxy=True), dele("b2", 0, 2, proxy=True)], [dele("b2", 1, 2)], [dele("b1", 0, 2)],
+                 [ins("b2", 2, "cfi:.cfi_undefined 3")], [ins("b2", 1, "mov")], [ins("b0", 2, "mov")],
+                 [dele("b0", 0, 2), dele("b1", 0, 2)], [dele("b1", 0, 2), dele("b2", 0, 2)]]
+    for mods in data_mods:
+        spec = cfi_layout("data")
+        spec["mods"] = copy.deepcopy(mods)
+        out.append(("cfi-data/%s" % mods_name(mods), spec))
+    for mods in data_mods:
+        spec = cfi_layout("split")
+        spec["mods"] = copy.deepcopy(mods)
+        out.append(("cfi-split/%s" % mods_name(mods), spec))
+    return out
